@@ -41,6 +41,23 @@ def tree_hash(repo=REPO):
     return h.hexdigest()[:24]
 
 
+def write_manifests(repo, out):
+    """the Cargo manifests of the tree, next to its facts (rules about build profiles read them)"""
+    path = os.path.join(out, "manifests.json")
+    if os.path.exists(path):
+        return
+    import json
+    ms = {}
+    for f in tree_files(repo):
+        if f.endswith("Cargo.toml"):
+            with open(os.path.join(repo, f)) as fh:
+                ms[f] = fh.read()
+    tmp = path + ".tmp%d" % os.getpid()
+    with open(tmp, "w") as fh:
+        json.dump(ms, fh)
+    os.replace(tmp, path)
+
+
 def nightly_sysroot():
     return subprocess.run(["rustc", "+nightly", "--print", "sysroot"], check=True,
                           capture_output=True, text=True).stdout.strip()
@@ -69,6 +86,7 @@ def extract(repo=REPO, target_dir=None, quiet=True):
     h = tree_hash(repo)
     out = os.path.join(BUILD, "facts", h)
     if all(os.path.exists(os.path.join(out, u + ".json")) for u in UNITS):
+        write_manifests(repo, out)
         return out, {"cached": True, "hash": h, "wall_s": 0.0}
     # one extraction at a time per cargo target directory (runs with different target directories may overlap)
     tname = os.path.basename(target_dir) if target_dir else "target"
@@ -76,6 +94,7 @@ def extract(repo=REPO, target_dir=None, quiet=True):
     fcntl.flock(lock, fcntl.LOCK_EX)
     try:
         if all(os.path.exists(os.path.join(out, u + ".json")) for u in UNITS):
+            write_manifests(repo, out)
             return out, {"cached": True, "hash": h, "wall_s": 0.0}
         if driver_stale():
             build_driver()
@@ -110,6 +129,7 @@ def extract(repo=REPO, target_dir=None, quiet=True):
             raise SystemExit("glasfacts: fact files not rewritten in this run: %s" % missing)
         shutil.rmtree(out, ignore_errors=True)
         os.rename(tmp, out)
+        write_manifests(repo, out)
         # keep the cache small: drop all but the 320 newest fact dirs (one per seeded change, ~19 MB each)
         dirs = sorted(glob.glob(os.path.join(BUILD, "facts", "*")), key=os.path.getmtime)
         for d in dirs[:-320]:
